@@ -126,6 +126,17 @@ Lemma inventories :
   gen_fields_EvalEnv = ["nativeFuncs []nativeFunc"; "userFuncs []*Func"; "Stack ValueStack"].
 Proof. repeat split; reflexivity. Qed.
 
+(* the exported type holds the engine and a build context, nothing else; its methods hand their arguments to the engine's methods
+   and return what these return: no cache, no state between the caller and the engine the theorems are about *)
+Lemma public_api_delegates :
+  gen_fields_Engine = ["impl *engine"; "BuildContext *build.Context"] /\
+  gen_api_NewEngine = ["return &Engine{impl: newEngine()}"] /\
+  gen_api_Load = ["return e.impl.Load(ctx, e.BuildContext, filename, r)"] /\
+  gen_api_LoadFromIR = ["return e.impl.LoadFromIR(ctx, e.BuildContext, filename, f)"] /\
+  gen_api_LoadedGroups = ["return e.impl.LoadedGroups()"] /\
+  gen_api_Run = ["return e.impl.Run(ctx, e.BuildContext, f)"].
+Proof. repeat split; reflexivity. Qed.
+
 (* placement loop of loadSyntaxRule: one append per destination bucket, one categorized rule *)
 Lemma pinned_place_loop : gen_place_loop =
   ["for _, tag := range dstTags { dst.rulesByTag[tag] = append(dst.rulesByTag[tag], result) }"; "dst.categorizedNum++"; "return nil"].
